@@ -954,6 +954,12 @@ pub fn c19_check(ops: &[Op], l: &crate::hsys::Layout, nmaps: usize) -> (u64, Vec
     };
     // (iv) a second build in the same process
     cmp("second build of the same sequence", "plan-not-reproducible", ops, &idm, &mut n, &mut vs);
+    // (vii) the size of the default pool / the number of cores the building thread sees
+    for nthreads in [1usize, 2, 3, 64] {
+        rayon::verif::set_default_threads(Some(nthreads));
+        cmp(&format!("built where rayon reports {} threads", nthreads), "plan-depends-on-pool-size", ops, &idm, &mut n, &mut vs);
+        rayon::verif::set_default_threads(None);
+    }
     // (i) renamings
     let names: Vec<String> = named_before(ops);
     if !names.is_empty() {
@@ -1173,5 +1179,56 @@ pub fn c19_sweep(len: usize, nids: usize, deadline: Instant, threads: usize) -> 
         col.merge(c2);
     }
     stats.max_depth = len;
+    E1Result { stats, col, samples: vec![] }
+}
+
+
+/// C19 over the parametric families (wide stages, long chains, groups filled to capacity).
+pub fn c19_families(nmax: usize, nmaps: usize, deadline: Instant, threads: usize) -> E1Result {
+    let fams = families(nmax);
+    let next = AtomicUsize::new(0);
+    let results: Mutex<Vec<(E1Stats, Collector)>> = Mutex::new(Vec::new());
+    std::thread::scope(|sc| {
+        for _ in 0..threads.max(1) {
+            sc.spawn(|| {
+                let mut st = E1Stats::default();
+                let mut col = Collector::default();
+                loop {
+                    let i = next.fetch_add(1, Ordering::Relaxed);
+                    if i >= fams.len() {
+                        break;
+                    }
+                    if Instant::now() > deadline {
+                        st.capped = true;
+                        break;
+                    }
+                    let (label, ops) = &fams[i];
+                    let l = match layout_of(ops, &Ctx::identity_map()) {
+                        Ok(l) => l,
+                        Err(_) => continue,
+                    };
+                    st.states += 1;
+                    st.transitions += ops.len() as u64;
+                    st.max_depth = st.max_depth.max(ops.len());
+                    let (n, vs) = c19_check(ops, &l, nmaps);
+                    st.barrier_metamorphic += n;
+                    for (sig, msg) in vs {
+                        col.add(Finding { prop: "C19".into(), sig, msg: format!("{} | family {} | layout {}", msg, label, l.short()), replay: json!({"kind":"plan","family":label,"ops":plan_json(ops)}), size: 100000 + ops.len() });
+                    }
+                }
+                results.lock().unwrap().push((st, col));
+            });
+        }
+    });
+    let mut stats = E1Stats::default();
+    let mut col = Collector::default();
+    for (s2, c2) in results.into_inner().unwrap() {
+        stats.states += s2.states;
+        stats.transitions += s2.transitions;
+        stats.barrier_metamorphic += s2.barrier_metamorphic;
+        stats.max_depth = stats.max_depth.max(s2.max_depth);
+        stats.capped |= s2.capped;
+        col.merge(c2);
+    }
     E1Result { stats, col, samples: vec![] }
 }
